@@ -188,6 +188,10 @@ pub enum AnyState {
 pub struct Params {
     pub cell: (f64, f64, f64),
     pub sites: Vec<(f64, f64, f64)>,
+    /// `<group>@<Family>`: the crystal family of label and cell (harness-only requests: oracles)
+    pub family: Option<String>,
+    /// `<group>+`: the single site of the group's state may be repeated (several occupied sites)
+    pub multi: bool,
 }
 
 fn inject<T: Serialize + serde::de::DeserializeOwned>(st: &T, p: &Params) -> Option<T> {
@@ -195,7 +199,19 @@ fn inject<T: Serialize + serde::de::DeserializeOwned>(st: &T, p: &Params) -> Opt
     v["cell"]["length"] = json!(p.cell.0);
     v["cell"]["ratio"] = json!(p.cell.1);
     v["cell"]["angle"] = json!(p.cell.2);
+    if let Some(f) = &p.family {
+        // a cell of another crystal family (library API / JSON): label and cell agree
+        v["cell"]["family"] = json!(f);
+        v["wallpaper"]["family"] = json!(f);
+    }
     let sites = v["occupied_sites"].as_array_mut()?;
+    if sites.len() == 1 && p.sites.len() >= 2 && p.multi {
+        // several occupied sites of the same Wyckoff position (`initialise(shape, wallpaper, &[site, …])` / JSON)
+        let first = sites[0].clone();
+        while sites.len() < p.sites.len() {
+            sites.push(first.clone());
+        }
+    }
     if sites.len() != p.sites.len() {
         return None;
     }
@@ -231,6 +247,7 @@ pub fn parse_state0(k: &mut Toks) -> Option<Result<AnyState, String>> {
         Err(e) => return Some(Err(e)),
     };
     let gname = k.s()?;
+    let gname = gname.split(|c| c == '@' || c == '+').next().unwrap_or(gname);
     let g: WallpaperGroups = match gname.parse() {
         Ok(g) => g,
         Err(_) => return Some(Err("group".to_string())),
@@ -249,6 +266,16 @@ pub fn parse_state0(k: &mut Toks) -> Option<Result<AnyState, String>> {
 
 /// `<kind> <shape> <group> init | <L R A> <nsites> (x y angle)..`
 pub fn parse_state(k: &mut Toks) -> Option<Result<AnyState, String>> {
+    // the group token may carry modifiers the model driver does not know (used by oracle requests only):
+    // `p1@Hexagonal` (crystal family of label and cell), `p1+` (several occupied sites)
+    let gtok = k.t.iter().skip(k.i).find(|t| crate::gen::GROUPS.iter().any(|g| t.split(|c| c == '@' || c == '+').next() == Some(*g))).copied().unwrap_or("");
+    let family = gtok.split('@').nth(1).map(|f| f.trim_end_matches('+').to_string());
+    if let Some(f) = &family {
+        if !crate::gen::FAMILIES.contains(&f.as_str()) {
+            return Some(Err("family".to_string()));
+        }
+    }
+    let multi = gtok.ends_with('+');
     let st = match parse_state0(k)? {
         Ok(s) => s,
         Err(e) => return Some(Err(e)),
@@ -263,7 +290,7 @@ pub fn parse_state(k: &mut Toks) -> Option<Result<AnyState, String>> {
     for _ in 0..n {
         sites.push((k.f()?, k.f()?, k.f()?));
     }
-    let p = Params { cell, sites };
+    let p = Params { cell, sites, family, multi };
     Some(match &st {
         AnyState::HardLine(s) => inject(s, &p).map(AnyState::HardLine),
         AnyState::HardMol(s) => inject(s, &p).map(AnyState::HardMol),
